@@ -151,19 +151,27 @@ def _resets(args):
         if rng.random() < 0.3:
             dynamic.AMPYCLOUD_PRMS['LAYERING_PRMS']['gmm_kwargs']['extra_kw'] = 1
         edited = copy.deepcopy(dynamic.AMPYCLOUD_PRMS)
-        arg = list(names)
-        if len(arg) == 1 and rng.random() < 0.5:
-            arg = arg[0]
-        amp.reset_prms(arg if names else None)
+        if names is None:
+            arg = None                                    # reset everything
+        else:
+            arg = list(names)                             # a (possibly EMPTY) subset of names: exactly those, nothing else
+            if len(arg) == 1 and rng.random() < 0.5:
+                arg = arg[0]
+            elif len(arg) == 0 and rng.random() < 0.5:
+                arg = ()
+        if names is None and rng.random() < 0.5:
+            amp.reset_prms()
+        else:
+            amp.reset_prms(arg)
         now = dynamic.AMPYCLOUD_PRMS
-        target = names if names else list(defaults)
+        target = list(defaults) if names is None else names
         for key in defaults:
             want = defaults[key] if key in target else edited[key]
             if now[key] != want:
-                findings.append(('C12.reset-restores-exactly-the-named-defaults', f'names={list(names)} key={key}'))
+                findings.append(('C12.reset-restores-exactly-the-named-defaults', f'names={None if names is None else list(names)} key={key}'))
                 break
         if set(now) != set(defaults):
-            findings.append(('C12.reset-restores-exactly-the-named-defaults', f'names={list(names)}: key set changed'))
+            findings.append(('C12.reset-restores-exactly-the-named-defaults', f'names={None if names is None else list(names)}: key set changed'))
     amp.reset_prms()
     return {'n': len(subsets), 'findings': findings}
 
@@ -206,7 +214,7 @@ def run(chk):
     common.import_ampycloud()
     from ampycloud import dynamic
     top = list(common.packaged_defaults())
-    subsets = [()] + [(a,) for a in top] + list(itertools.combinations(top, 2))
+    subsets = [None, None, (), (), ()] + [(a,) for a in top] + list(itertools.combinations(top, 2))
     if quick:
         subsets += [tuple(chk.rng.sample(top, chk.rng.randint(3, len(top)))) for _ in range(200)]
     else:
